@@ -1709,8 +1709,9 @@ def _diagnostics_only_poured(rep: Report, ctx: Any) -> None:
         reads: dict[str, list[ast.Attribute]] = {}
         lcs = Locals(f.node)
         params = {p_.arg: None for p_ in f.params}
+        called = {id(c.func) for c in _own_nodes(f.node) if isinstance(c, ast.Call)}
         for n in _own_nodes(f.node):
-            if isinstance(n, ast.Attribute) and n.attr in stores and isinstance(n.ctx, ast.Load):
+            if isinstance(n, ast.Attribute) and n.attr in stores and isinstance(n.ctx, ast.Load) and id(n) not in called:   # (x.errors(): a method)
                 r = ix.resolve(f.module, dotted(n)) if dotted(n) and isinstance(_root_name(n), str) and _root_name(n) not in lcs.defs | params else None
                 if r is not None and r[0] in ("module", "ext", "class", "func"):
                     continue   # <package>.errors: a module of that name, not a field
